@@ -74,18 +74,29 @@ def may_raise(ctx, eff, func, concrete, call, target, _memo={}):
 
 
 def entry_loops(func):
-    """Loops over directory entries (for statements and comprehensions): the iterable
-    derives from listdir()/self.files."""
+    """Loops over directory entries (for statements and comprehensions): the iterable derives from listdir(), or is a
+    collection the handler keeps about its entries (an attribute of self: self.files, self.fileentries, a list of link
+    files noted during the walk, ...), possibly wrapped in sorted()/list()/enumerate()/reversed()."""
+    def per_entry(it) -> bool:
+        text = expand(it, func)
+        if "listdir(" in text or "dirfiles" in text:
+            return True
+        e = it
+        for _ in range(3):
+            if isinstance(e, ast.Call) and (dotted(e.func) or "") in ("sorted", "list", "tuple", "enumerate", "reversed", "iter") and e.args:
+                e = e.args[0]
+        if isinstance(e, ast.Attribute) and dotted(e.value) == "self" and e.attr not in ("config", "vfs", "protocol", "entry", "mbox", "zip"):
+            return True
+        return False
+
     loops = []
     for n in ast.walk(func.node):
         if isinstance(n, ast.For):
-            text = expand(n.iter, func)
-            if "listdir(" in text or "self.files" in text or "dirfiles" in text:
+            if per_entry(n.iter):
                 loops.append(n)
         elif isinstance(n, (ast.ListComp, ast.SetComp, ast.GeneratorExp, ast.DictComp)):
             for g in n.generators:
-                text = expand(g.iter, func)
-                if "listdir(" in text or "self.files" in text or "dirfiles" in text:
+                if per_entry(g.iter):
                     loops.append(n)
                     break
     return loops
